@@ -187,7 +187,7 @@ func factsOf(sigs []gen.SigSpec, payload []byte) []sigFact {
 		out = append(out, sigFact{
 			sid:    s.SID,
 			key:    s.SigningKey(),
-			intact: s.Tamper == gen.TamperNone && (s.DigestOver == nil || bytes.Equal(s.DigestOver, payload)),
+			intact: s.Tamper == gen.TamperNone && !s.Lift && (s.DigestOver == nil || bytes.Equal(s.DigestOver, payload)),
 		})
 	}
 	return out
